@@ -344,8 +344,11 @@ func (g *pg) stmt(depth int) []lang.Stmt {
 	k := g.pick("stmtk", 100)
 	asg := g.assignable()
 	switch {
-	case k < 14:
+	case k < 11:
 		return []lang.Stmt{g.traceStmt()}
+	case k < 14:
+		// a call whose result is ignored: leaves a value on the stack
+		return []lang.Stmt{lang.ExprStmt{X: lang.Call{Fn: "id", Args: []lang.Expr{g.intExpr(1)}}}}
 	case k < 28 && len(asg) > 0:
 		n := rapid.SampledFrom(asg).Draw(g.t, "asg")
 		return []lang.Stmt{lang.Assign{N: n, X: g.intExpr(2)}}
